@@ -572,6 +572,12 @@ def parse_module(text):
         ins = parse_instr(toks, mod)
         ins.text = ln.strip()
         cur.blocks[label].append(ins)
+    # function aliases (e.g. complete-object destructor D1 = alias of base-object destructor D2)
+    for name, g in list(mod.globals.items()):
+        if isinstance(g.init, tuple) and g.init[0] == 'alias':
+            tgt = g.init[1]
+            while isinstance(tgt, Const) and tgt.kind == 'cast': tgt = tgt.val[2]
+            if isinstance(tgt, GlobalRef) and tgt.name in mod.funcs: mod.funcs[name] = mod.funcs[tgt.name]
     return mod
 
 if __name__ == '__main__':
